@@ -102,7 +102,9 @@ def run_kani(prop, tier, obs, mods, jobs, replay_dir, known_sites):
                 "checks": r["n_checks"], "vccs": r["vccs"], "covers": r["covers"],
             }
             if "bounded" in o["meta"]:
-                rec["bounded"] = o["meta"]["bounded"]
+                rec["bounded"] = o["meta"]["bounded"]          # a bounded stand-in: never counted as proved
+            if "instance" in o["meta"]:
+                rec["instance"] = o["meta"]["instance"]        # complete proof of ONE const-generic instantiation / size
             if o["meta"].get("witness"):
                 # refutation witness of a recorded known finding: not an obligation that the property holds
                 rec["witness"] = True
@@ -350,9 +352,8 @@ def write_evidence(prop, tier, seed, records, violations, annotations, cmds, vin
     notes = load_property_notes().get(prop, {})
     known_names = {v["rec"]["name"] for v in violations if v["known"]}
     # obligations = what is claimed to hold; refutation witnesses and recorded known findings are listed separately
-    proved = [r for r in records if not r.get("witness") and r["name"] not in known_names]
+    proved = [r for r in records if not r.get("witness") and r["name"] not in known_names and not r.get("bounded")]
     discharged = [r for r in proved if r["status"] == "discharged"]
-    bounded = [r for r in proved if r.get("bounded")]
     fns = sorted({r["function"] for r in records if r.get("function")})
     trusted = list(notes.get("trusted_base", []))
     trusted += [
@@ -373,8 +374,10 @@ def write_evidence(prop, tier, seed, records, violations, annotations, cmds, vin
         "samples": samples,
         "functions_under_contract": fns,
         "obligation_records": records,
-        "bounded_standins": [{"name": r["name"], "bound": r["bounded"]} for r in bounded],
-        "discharged_unbounded": len([r for r in discharged if not r.get("bounded")]),
+        "bounded_standins": [{"name": r["name"], "bound": r["bounded"], "status": r["status"]} for r in records if r.get("bounded")],
+        "bounded_standins_note": "bounded stand-ins are run and must pass, but are NOT counted in obligations/discharged",
+        "per_instance_proofs": [{"name": r["name"], "instance": r["instance"]} for r in proved if r.get("instance")],
+        "per_instance_note": "complete proofs (all loops fully unrolled with unwinding assertions) of one const-generic instantiation or universe size each; counted, but the claim is per instance, not for all sizes",
         "solver_time_s": round(sum((r.get("solver_s") or 0) for r in records), 3),
         "cbmc_checks_total": sum((r.get("checks") or 0) for r in records if r["engine"] == "kani"),
         "lines_added_to_scratch_copy": annotations,
